@@ -239,3 +239,142 @@ Proof.
       exists rep. destruct (mb_walk tl f nextU) as [f' next'].
       cbn [filter fst snd]. rewrite Et. cbn [andb]. exact Hrep.
 Qed.
+
+Lemma asc_filter p : forall lo l, asc lo l -> asc lo (filter p l).
+Proof.
+  intros lo l; revert lo; induction l as [|e tl IH]; intros lo H; cbn [filter asc] in *; [auto|].
+  destruct H as [H1 H2]. destruct (p e); cbn [asc].
+  - split; [exact H1|apply IH, H2].
+  - eapply asc_weaken; [|apply IH, H2]. lia.
+Qed.
+
+Lemma below_filter p hi l : below hi l -> below hi (filter p l).
+Proof.
+  unfold below. intros H. apply Forall_forall. intros x Hx. apply filter_In in Hx as [Hx _].
+  eapply Forall_forall in H; eauto.
+Qed.
+
+(* the first entry satisfying p heads the filtered list; the rest comes from the entries after it *)
+Lemma filter_split_first p next' : forall lo l e, asc lo l -> ent_first p l = Some e -> fst e < next' ->
+  filter (fun x => p x && (fst x <? next')) l =
+  e :: filter (fun x => p x && (fst x <? next')) (ent_from (fst e + 1) l).
+Proof.
+  intros lo l; revert lo; induction l as [|x tl IH]; intros lo e Ha Hf Hn; cbn [ent_first] in Hf; [discriminate|].
+  cbn [asc] in Ha. destruct Ha as [H1 H2]. cbn [filter ent_from]. fold (ent_from (fst e + 1) tl).
+  destruct (p x) eqn:Ep.
+  - inversion Hf; subst x. replace (fst e <? next') with true by lia. cbn [andb].
+    replace (fst e + 1 <=? fst e) with false by lia.
+    rewrite (ent_from_all (fst e + 1) (fst e + 1) tl H2) by lia. reflexivity.
+  - cbn [andb]. assert (Hk : fst x + 1 <= fst e).
+    { destruct e as [k v]. cbn [fst]. eapply ent_first_key_ge; eauto. }
+    replace (fst e + 1 <=? fst x) with false by lia. eapply IH; eauto.
+Qed.
+
+Lemma reports_asc : forall es rep lo, Forall2 reports es rep -> asc lo es -> asc lo rep.
+Proof.
+  induction es as [|e tl IH]; intros rep lo HF Ha; inversion HF as [|? r ? rtl [Hk _] HF']; subst; cbn [asc] in *; [auto|].
+  destruct Ha as [H1 H2]. rewrite Hk. split; [exact H1|apply IH; auto].
+Qed.
+
+Lemma syms_of_length hi : forall rep lo, asc lo rep -> below hi rep -> lo <= hi ->
+  Z.of_nat (length (syms_of lo rep)) <= hi - lo.
+Proof.
+  induction rep as [|e tl IH]; intros lo Ha Hb Hle; cbn [syms_of length asc] in *; [lia|].
+  destruct Ha as [H1 H2]. inversion Hb as [|? ? Hb1 Hb2]; subst.
+  rewrite app_length, repeat_length. cbn [length]. specialize (IH _ H2 Hb2 ltac:(lia)). lia.
+Qed.
+
+(* the retained entries maybeBuildFeedbackPacket(b, end) looks at *)
+Definition range_ents (m : amap) (b : Z) : list (Z * Z) :=
+  filter (fun en => (am_clamp m b <=? fst en) && (fst en <? am_clamp m (m_end m))) (m_ent m).
+
+(* C05_build, per packet: what maybeBuildFeedbackPacket(start, end) produces *)
+Theorem maybe_build_spec sender r b :
+  am_inv (r_map r) -> b < m_end (r_map r) ->
+  let m := r_map r in
+  match rec_maybe_build sender r b (m_end m) with
+  | (Some fb, next', _) =>
+      exists first t0 rep,
+        ent_first (fun en => snd en >=? 0) (range_ents m b) = Some (first, t0) /\
+        let baseU := Z.max b (first - 32766) in
+        (* exactly the received entries of the range below the new start pointer are reported, none skipped *)
+        Forall2 reports (filter (fun e => (snd e >=? 0) && (fst e <? next')) (range_ents m b)) rep /\
+        fb_inv fb (syms_of baseU rep) /\
+        f_base fb = baseU mod 65536 /\ f_ref fb = Z.quot t0 64000 /\
+        baseU <= first < next' /\ next' <= m_end m /\
+        Z.of_nat (length (syms_of baseU rep)) < 65536
+  | (None, next', c) =>
+      next' = b /\ c = r_fb r /\ ent_first (fun en => snd en >=? 0) (range_ents m b) = None
+  end.
+Proof.
+  intros Hinv Hb m. pose proof Hinv as (Ha & Hbel & Hle & Hw).
+  unfold rec_maybe_build. fold m. fold (range_ents m b).
+  assert (Hs : m_begin m <= am_clamp m b <= m_end m /\ b <= am_clamp m b).
+  { unfold am_clamp. destruct (b <? m_begin m) eqn:E1; [lia|]. destruct (m_end m <? b) eqn:E2; lia. }
+  assert (HaR : asc (am_clamp m b) (range_ents m b)).
+  { unfold range_ents.
+    assert (H0 : asc (am_clamp m b) (ent_from (am_clamp m b) (m_ent m))).
+    { pose proof (asc_from (am_clamp m b) _ _ Ha) as H. eapply asc_weaken; [|exact H]. lia. }
+    replace (filter _ (m_ent m)) with (filter (fun en => fst en <? am_clamp m (m_end m)) (ent_from (am_clamp m b) (m_ent m))).
+    - apply asc_filter, H0.
+    - unfold ent_from. clear. induction (m_ent m) as [|e tl IH]; cbn [filter]; [reflexivity|].
+      destruct (am_clamp m b <=? fst e); cbn [filter andb]; [destruct (fst e <? _); rewrite IH; reflexivity|exact IH]. }
+  assert (HbR : below (m_end m) (range_ents m b)) by (apply below_filter, Hbel).
+  destruct (ent_first (fun en => snd en >=? 0) (range_ents m b)) as [[first t0]|] eqn:Efirst; [|auto].
+  pose proof (ent_first_some _ _ _ Efirst) as Ht0. cbn [snd] in Ht0.
+  pose proof (ent_first_key_ge _ _ _ _ _ HaR Efirst) as Hk0.
+  assert (Hfirst_lt : first < m_end m).
+  { clear - Efirst HbR. induction (range_ents m b) as [|e tl IH]; cbn [ent_first] in Efirst; [discriminate|].
+    inversion HbR; subst. destruct (snd e >=? 0); [inversion Efirst; subst; cbn [fst] in *; lia|auto]. }
+  set (baseU := Z.max b (first - 32766)).
+  pose proof (first_add_succeeds (u16 baseU) (u16 first) t0 ltac:(lia)) as Hne.
+  destruct (fb_add_received (fb_new (u16 baseU) t0) (u16 first) t0) as [fb1|] eqn:Eadd; [|congruence].
+  assert (Hinv0 : fb_inv (fb_new (u16 baseU) t0) []) by (apply fb_new_inv; unfold u16; lia).
+  destruct (fb_add_inv _ _ _ _ _ Hinv0 Eadd) as (Hinv1 & _ & Hbase1 & Href1).
+  assert (Hn1 : f_next fb1 = (first + 1) mod 65536).
+  { rewrite (add_next _ _ _ _ Eadd) by (cbn [fb_new f_next]; unfold u16; lia). cbn [fb_new f_next]. unfold sub16, u16. lia. }
+  assert (Hgap : sub16 (u16 first) (f_next (fb_new (u16 baseU) t0)) = first - baseU)
+    by (cbn [fb_new f_next]; unfold sub16, u16; lia).
+  unfold add_syms in Hinv1. rewrite Hgap in Hinv1. cbn [app] in Hinv1.
+  set (sym0 := if (0 <=? round250 (t0 - f_last (fb_new (u16 baseU) t0))) && (round250 (t0 - f_last (fb_new (u16 baseU) t0)) <=? 255) then 1 else 2) in *.
+  assert (HaW : asc (first + 1) (ent_from (first + 1) (range_ents m b))).
+  { pose proof (asc_from (first + 1) _ _ HaR) as H. eapply asc_weaken; [|exact H]. lia. }
+  destruct (walk_spec (m_end m) _ fb1 (first + 1) _ Hinv1 Hn1 HaW (below_from _ _ _ HbR) ltac:(lia)) as (rep & Hrep).
+  destruct (mb_walk (ent_from (first + 1) (range_ents m b)) fb1 (first + 1)) as [fb2 next'] eqn:Ewalk.
+  destruct Hrep as (HF & Hinv2 & Hn2 & Hle2 & Hb2 & Hr2).
+  assert (Hnext_le : next' <= m_end m).
+  { (* next' is first+1 or one past a reported entry, all below end *)
+    clear - Ewalk HbR Hfirst_lt. assert (Hbw := below_from (first + 1) _ _ HbR).
+    revert Ewalk Hbw. generalize (ent_from (first + 1) (range_ents m b)) as l. intros l; revert fb1 Hfirst_lt.
+    generalize (first + 1) as nx. intros nx fb1 Hnx.
+    revert nx fb1 Hnx. induction l as [|[k v] tl IH]; intros nx fb1 Hnx Ew Hbw; cbn [mb_walk] in Ew.
+    - inversion Ew; subst. lia.
+    - inversion Hbw as [|? ? Hk Htl]; subst. cbn [fst] in Hk.
+      destruct (v >=? 0); [destruct (fb_add_received fb1 (u16 k) v) as [f'|]|].
+      + eapply (IH (k + 1) f'); eauto. lia.
+      + inversion Ew; subst. lia.
+      + eapply IH; eauto. }
+  exists first, t0, ((first, sym0) :: rep).
+  split; [reflexivity|]. cbv zeta. fold baseU.
+  split.
+  { rewrite (filter_split_first (fun e => snd e >=? 0) next' _ _ _ HaR Efirst) by (cbn [fst]; lia). cbn [fst].
+    constructor; [|exact HF]. split; [reflexivity|]. cbn [snd]. unfold sym0. destruct (_ && _); auto. }
+  assert (Hsyms : syms_of baseU ((first, sym0) :: rep) = (repeat 0 (Z.to_nat (first - baseU)) ++ [sym0]) ++ syms_of (first + 1) rep).
+  { cbn [syms_of fst snd]. rewrite <- app_assoc. reflexivity. }
+  split; [rewrite Hsyms; exact Hinv2|].
+  split; [rewrite Hb2, Hbase1; cbn [fb_new f_base]; reflexivity|].
+  split; [rewrite Hr2, Href1; cbn [fb_new f_ref]; reflexivity|].
+  split; [unfold baseU; lia|]. split; [exact Hnext_le|].
+  (* fewer than 2^16 statuses: window 2^15 + at most 0x7FFE missing before the first *)
+  assert (Hrep_asc : asc baseU ((first, sym0) :: rep)).
+  { cbn [asc fst]. split; [unfold baseU; lia|].
+    eapply reports_asc; [exact HF|]. apply asc_filter. exact HaW. }
+  assert (Hrep_bel : below (m_end m) ((first, sym0) :: rep)).
+  { constructor; [cbn [fst]; lia|].
+    clear - HF HbR. assert (Hbw := below_filter (fun e => (snd e >=? 0) && (fst e <? next')) _ _ (below_from (first + 1) _ _ HbR)).
+    revert HF Hbw. generalize (filter (fun e => (snd e >=? 0) && (fst e <? next')) (ent_from (first + 1) (range_ents m b))) as es.
+    intros es HF. induction HF as [|e r es' rep' [Hk _] _ IH]; intros Hbw; [constructor|].
+    inversion Hbw; subst. constructor; [rewrite Hk; auto|apply IH; auto]. }
+  pose proof (syms_of_length (m_end m) _ baseU Hrep_asc Hrep_bel ltac:(unfold baseU; lia)) as Hlen.
+  unfold baseU in *. lia.
+Qed.
